@@ -378,7 +378,7 @@ func c03Loopback(c *Ctx) {
 				}
 				jb := jobs[i]
 				serial := serialBase + uint32(i) + 1
-				cfg := ClientCfg{Bind: "127.0.0.1:0", Broadcast: bc.Addr, Timeout: T}
+				cfg := ClientCfg{Bind: workerIP(c, w) + ":0", Broadcast: bc.Addr, Timeout: T}
 				switch jb.path {
 				case "udp":
 					cfg.Devices = []DevCfg{{ID: serial, Addr: cu.Addr, Proto: "udp"}}
@@ -396,6 +396,14 @@ func c03Loopback(c *Ctx) {
 				out, panicked := adapter.SafeCall(u, jb.op.Name, serial, a, aux)
 				elapsed := time.Since(start)
 				cases.Delete(serial)
+				// let the farm finish playing this case's script before this worker opens its next socket
+				scriptLen := time.Duration(len(cs.dgrams))*time.Millisecond + 3*time.Millisecond
+				if jb.path == "tcp" && len(cs.dgrams) > 1 {
+					scriptLen += 30 * time.Millisecond
+				}
+				if rest := scriptLen - elapsed; rest > 0 {
+					time.Sleep(rest)
+				}
 				if elapsed > T+3*time.Second {
 					c.Res.Inconcl(fmt.Sprintf("call took %v (host overloaded?)", elapsed))
 					continue
